@@ -166,6 +166,8 @@ pub struct PMatrix {
     pub durations: Vec<i64>,
     pub distances: Vec<i64>,
     pub error_codes: Option<Vec<i64>>,
+    /// time-dependent routing: the matrix is in effect from this time on
+    pub timestamp: Option<f64>,
 }
 
 #[derive(Clone, Debug)]
@@ -401,6 +403,9 @@ impl PProblem {
                 if let Some(e) = &m.error_codes {
                     o.insert("errorCodes".into(), json!(e));
                 }
+                if let Some(t) = m.timestamp {
+                    o.insert("timestamp".into(), json!(fmt_time(t)));
+                }
                 Value::Object(o)
             })
             .collect()
@@ -505,6 +510,27 @@ impl PProblem {
     pub fn matrix_of(&self, profile: &str) -> Option<&PMatrix> {
         self.matrices.iter().find(|m| m.profile == profile)
     }
+
+    /// The matrix in effect for a leg which departs at `time`. Time-dependent routing: the matrix with the latest timestamp
+    /// not after `time` (the first one before all of them). Err when `time` lies strictly between two timestamps: the
+    /// library interpolates travel times there, which the routing data alone does not define.
+    pub fn matrix_at(&self, profile: &str, time: f64) -> Result<Option<&PMatrix>, ()> {
+        let mut ms: Vec<&PMatrix> = self.matrices.iter().filter(|m| m.profile == profile).collect();
+        if ms.len() <= 1 || ms.iter().any(|m| m.timestamp.is_none()) {
+            return Ok(ms.first().copied());
+        }
+        ms.sort_by(|a, b| a.timestamp.unwrap().total_cmp(&b.timestamp.unwrap()));
+        if time <= ms[0].timestamp.unwrap() {
+            return Ok(Some(ms[0]));
+        }
+        if time >= ms.last().unwrap().timestamp.unwrap() {
+            return Ok(ms.last().copied());
+        }
+        match ms.iter().find(|m| m.timestamp.unwrap() == time) {
+            Some(m) => Ok(Some(m)),
+            None => Err(()),
+        }
+    }
 }
 
 impl PMatrix {
@@ -533,5 +559,5 @@ pub fn standard_matrix(profile: &str, n: usize) -> PMatrix {
             distances.push(if i == j { 0 } else { 2 * d + if j < i { 3 } else { 0 } });
         }
     }
-    PMatrix { profile: profile.to_string(), n, durations, distances, error_codes: None }
+    PMatrix { profile: profile.to_string(), n, durations, distances, error_codes: None, timestamp: None }
 }
